@@ -4,6 +4,8 @@ import (
 	"github.com/consensys/gnark/logger"
 	"github.com/rs/zerolog"
 	"worldcoin/gnark-mbu/logging"
+
+	"verif/harness/ev"
 )
 
 var Registry = map[string]func(){}
@@ -12,4 +14,21 @@ func init() {
 	logger.Disable()
 	// silence the repository's own logger (Logger() hands out a pointer to the package variable)
 	*logging.Logger() = logging.Logger().Level(zerolog.Disabled)
+}
+
+// libIsolationHook is set by the scheduler build (-tags verif, instrumented prover package): the
+// two-thread interleaving exploration of the pure helpers (lib_sched.go). nil in the plain build.
+var libIsolationHook func(c *ev.Ctx, keyPrefix string, which []int) (execs, states, trans int64, complete bool)
+
+// runLibIsolation adds the concurrent-callers phase to a sequential check when the build provides it.
+func runLibIsolation(c *ev.Ctx, which ...int) {
+	if libIsolationHook == nil {
+		c.Set("concurrent_callers", map[string]any{"explored": false, "note": "plain build: interleavings of concurrent callers not explored in this run"})
+		return
+	}
+	if c.NViolations() > 0 || c.Expired() {
+		return
+	}
+	e, s, t, done := libIsolationHook(c, "concurrent callers|", which)
+	c.Set("concurrent_callers", map[string]any{"explored": true, "helpers": which, "threads": 2, "preemption_bound": 2, "executions": e, "states": s, "transitions": t, "complete": done})
 }
